@@ -149,6 +149,17 @@ impl<'a, 'tcx> Cx<'a, 'tcx> {
         }
         // the `Some(pat) => body` arm
         for a in iarms {
+            if let hir::PatKind::Struct(_, fs, _) = a.pat.kind {
+                if fs.len() == 1 {
+                    return Some(format!(
+                        "\"k\":\"for\",\"pat\":{},\"iter\":{},\"iter_ty\":\"{}\",\"body\":{}",
+                        self.pat(fs[0].pat),
+                        self.expr(&args[0]),
+                        esc(&self.n.ty(self.tck.expr_ty_adjusted(&args[0]))),
+                        self.expr(a.body)
+                    ));
+                }
+            }
             if let hir::PatKind::TupleStruct(_, ps, _) = a.pat.kind {
                 if ps.len() == 1 {
                     return Some(format!(
